@@ -6,8 +6,9 @@ def run(chk):
     # `links` = "<links> <locals>" (loopsim.links_coq).  check_C04: at most once + classification + no
     # strangers on every trace; check_C04_complete: at least once, on settled traces, judged against
     # the model's own trace of the same scenario (loopsim.compare_build).
+    # check_C04_join (also on settled traces): a failed callback leaves a normally completed join handle.
     # check_C04_terminal_first: a terminal event already sent is handled before any later user message.
     lo = lambda links: (links.split("] [")[0] + "]") if "] [" in links else links
     return run_loop_check(chk, lambda n, links, t: f"andb (check_C04 {links} {t}) (check_C04_terminal_first {lo(links)} {t})", "mixed",
                           "supervision event missing, duplicated, misclassified or sent to a stranger",
-                          complete_fn=lambda links, t: f"check_C04_complete {links} {t}")
+                          complete_fn=lambda links, t: f"andb (check_C04_complete {links} {t}) (check_C04_join (List.length {links}) {t})")
